@@ -20,16 +20,44 @@ def enc_val(v):
     if isinstance(v, dict):
         if "tok" in v and isinstance(v["tok"], list):
             return "t%d:%s" % (max(v["tok"][0], 0), enc_str(v["tok"][1]))
-        if "cls" in v:
+        if "cls" in v and len(v) == 1:
             return "i%d" % v["cls"]
-        return "n"
+        if "repr" in v and len(v) == 1:
+            return "n"
+        # nested dict (one level): d<key>~<val>|<key>~<val>, insertion order kept
+        parts = []
+        for k, x in v.items():
+            e = enc_val(x)
+            if any(c in e for c in "|~;=\t") or any(c in str(k) for c in "|~;=\t"):
+                continue
+            parts.append("%s~%s" % (k, e))
+        return "d" + "|".join(parts)
     if isinstance(v, list):
         flat = [enc_val(x) for x in v if not isinstance(x, (list,))]
         return "l" + ",".join(x for x in flat if "," not in x and ";" not in x)
     return "n"
 
 
+def enc_action(a, indents=None):
+    """violation action: a dict as key/values; a plain string under the key `_str`; None as `_none` (and
+    `__none__`, the key the whitespace family reads); any other object as `_other`; the indent levels of
+    the old tokens (if harvested) under `_indents`"""
+    if isinstance(a, str):
+        d = {"_str": a}
+    elif isinstance(a, dict):
+        d = dict(a)
+    elif a is None:
+        d = {"_none": None, "__none__": True}
+    else:
+        d = {"_other": None}
+    if indents is not None:
+        d["_indents"] = [i if isinstance(i, int) and not isinstance(i, bool) else None for i in indents]
+    return enc_kv(d)
+
+
 def enc_kv(d):
+    if d is None:
+        return "__none__=b1"
     if not isinstance(d, dict):
         return ""
     parts = []
@@ -61,7 +89,7 @@ def replay_records(records, ncls):
 
     from leanio import DRIVER
 
-    payload = "".join("%s\t%s\t%s\t%s\n" % (r["owner"], enc_kv(r["params"]), enc_kv(r["action"]), enc_plain_toks(r["old"], ncls)) for r in records)
+    payload = "".join("%s\t%s\t%s\t%s\n" % (r["owner"], enc_kv(r["params"]), enc_action(r["action"], r.get("indents")), enc_plain_toks(r["old"], ncls)) for r in records)
     p = subprocess.run([DRIVER, "bfix"], input=payload, stdout=subprocess.PIPE, text=True, encoding="utf-8")
     replies = p.stdout.split("\n")
     modelled = 0
